@@ -156,6 +156,7 @@ def check_case(case):
   quantized = [False] * case['nq']
   shared = {'calib': None}
   labels = []
+  returned = []  # (object returned to the caller earlier, deep snapshot, what)
   recipes_used_with_calib = []
   triples = []
   for k, s in enumerate(case['steps']):
@@ -175,6 +176,17 @@ def check_case(case):
       except Exception as e:  # pylint: disable=broad-except
         labels.append('calibrate_raised')
         continue
+      # calibrate() itself must not depend on earlier calls on this Quantizer
+      fresh = quantizer_mod.Quantizer(bytes(model_snap))
+      set_recipe(fresh, cur_recipe[s['q']], check_arg=False)
+      try:
+        want = calibrate_all(fresh, mspec, s['seeds'], copy.deepcopy(prev))
+      except Exception:  # pylint: disable=broad-except
+        want = None
+      if want is not None and not deep_equal(res, want):
+        raise Violation('calibrate_depends_on_history',
+                        where + ': differs from a fresh Quantizer given equal arguments: ' + _diff(res, want))
+      returned.append((res, copy.deepcopy(res), 'calibration result returned at ' + where))
       if res:
         shared['calib'] = res
       labels.append('calibrate')
@@ -214,6 +226,9 @@ def check_case(case):
       labels.append('validate_ok' if ok else 'validate_raised')
     if bytes(model_bytes) != model_snap or any(bytes(q.float_model) != model_snap for q in qts):
       raise Violation('model_bytes_mutated', where)
+    for obj, snap, what in returned:
+      if not deep_equal(obj, snap):
+        raise Violation('earlier_result_mutated', '%s was modified by %s: %s' % (what, where, _diff(obj, snap)))
   # fresh processes under other hash seeds (sampled)
   every = 12 if os.environ.get('VERIF_TIER_C14') == 'thorough' else 32
   if triples and int(core.spec_hash(case), 16) % every == 0:
